@@ -325,6 +325,11 @@ var programs = []prog{
 	{Name: "bear-pairs", Src: "c := {a: 1}.bear({c: 1, b: 2})\n[c.keys, c.items, c]"},
 	{Name: "patch-del", Src: "o := {a: 1, b: 2, c: 3}\n[o.patch(b: 3, d: 4), o.del('a), o.patch(z: 0).keys]"},
 	{Name: "case-map", Src: "[5.case(%{1: 'a, Int: 'b, Obj: 'c}), \"s\".case(%{Int: 'i, Str: 's, Obj: 'o}), nil.case(%{1: 2})]"},
+	// objects and maps with more own properties than any display limit, shown by every conversion
+	{Name: "big-obj-shown", Src: "o := {k00: 0, k01: 1, k02: 2, k03: 3, k04: 4, k05: 5, k06: 6, k07: 7, k08: 8, k09: 9, k10: 10, k11: 11, k12: 12, k13: 13, k14: 14, k15: 15, k16: 16, k17: 17, k18: 18, k19: 19}.bear({z: 1, y: 2})\nb := {k00: 0, k01: 1, k02: 2, k03: 3, k04: 4, k05: 5, k06: 6, k07: 7, k08: 8, k09: 9, k10: 10, k11: 11, k12: 12, k13: 13, k14: 14, k15: 15, k16: 16, k17: 17, k18: 18, k19: 19}\n[o.repr, b.repr, b.S, [b].repr, {in: b}.repr, b.bear({}).repr, \"#{b}\"].p\nb.p"},
+	{Name: "big-map-shown", Src: "m := %{'m00: 0, 'm01: 1, 'm02: 2, 'm03: 3, 'm04: 4, 'm05: 5, 'm06: 6, 'm07: 7, 'm08: 8, 'm09: 9, 'm10: 10, 'm11: 11, 'm12: 12, 'm13: 13, 'm14: 14, 'm15: 15, 'm16: 16, 'm17: 17, 'm18: 18, 'm19: 19}\n[m.repr, m.S, [m].repr]"},
+	// error messages that name things of the scope (a later program must see the same message every run)
+	{Name: "error-messages-about-near-names", Src: "total1 := 1\ntotal2 := 2\ntotal3 := 3\ncount := 4\n[nil.try.{|u| total4}.err.msg, nil.try.{|u| totl1}.err.msg, nil.try.{|u| {a1: 1, a2: 2, a3: 3}.a4}.err.msg, nil.try.{|u| coun}.err.S]"},
 	{Name: "digest", Src: "[[\"b\", 1], [\"a\", 2], [\"b\", 3]]@({}){|x| x}.p\n[[2, 1], [1, 2], [2, 3]]@(%{}){|x| x}.p"},
 	{Name: "closures-env-copy", Src: "x := 1\ny := 2\nz := 3\nh := {|a| w := a + x\n{|b| [x, y, z, w, a, b]}}\nh(10)(20)"},
 	{Name: "recursion-env-copy", Src: "fact := {|n| return 1 if n < 2\nm := n - 1\nn * fact(m)}\nfact(5)"},
